@@ -13,7 +13,8 @@ PROPERTY = 'C04'
 LEVEL = 'exploration'
 RULE = ('exhaustive over ordered pairs and triples of handler shapes {return v, return None, raise, generator yielding <= 2 values '
         '(None / non-None mixed), generator raising at step 0..2} with all feedback flags on, plus flag combinations on a corpus and seeded '
-        'random 1-5 handler sets with child events fired from handlers (nesting <= 3); non-trivial = the event has >= 2 handlers of '
+        'random 1-5 handler sets with child events fired from handlers (nesting <= 3); a part of the programs fires the same event OBJECT again '
+        '(1-2 more times, as a persistent Timer does) once it has been handled, every firing judged like a fresh event; non-trivial = the event has >= 2 handlers of '
         'different shapes or a generator handler; distinct = hash of the program')
 ASSUMPTIONS = [
     'handlers returning Value objects or using generator `return v` are not generated (the statement does not speak about them)',
@@ -21,7 +22,8 @@ ASSUMPTIONS = [
     'evaluated at quiescence of a manager stepped by tick() from the checking thread',
 ]
 REQUIRED = ['falsy_result', 'handler_resumed_from_call', 'base_exception_raised', 'raise_plus_generator', 'generator_raises_at_step', 'multi_value_list', 'single_value_scalar', 'success_requested',
-            'failure_requested', 'notify_requested', 'success_channels_override', 'child_event_from_handler', 'two_raises_one_event']
+            'failure_requested', 'notify_requested', 'success_channels_override', 'child_event_from_handler', 'two_raises_one_event',
+            'same_event_object_fired_again', 'event_object_fired_again_after_a_handler_raised']
 REQUIRED_OBLIGATIONS = ['VALUE', 'ERRORS_FLAG', 'EXCEPTION_EVENTS', 'FAILURE_EVENTS', 'SUCCESS_ONCE_IFF', 'SUCCESS_AFTER_HANDLERS',
                         'ALL_HANDLERS_RAN', 'LATER_EVENTS_RUN']
 WORKER_TIMEOUT = {'quick': 300, 'thorough': 1500}
@@ -77,6 +79,19 @@ def run_case(case):
         return [('LOOP_RAISED', {'error': repr(ex), 'tb': traceback.format_exc(limit=6)})], {'marks': set(), 'counts': {}}, w
     if not ok:
         return None, {'inconclusive': 'does not settle'}, w
+    # the same event OBJECT fired again once it has been fully handled (what a persistent Timer does with its event): every
+    # firing is judged like a fresh event
+    for _ in range(case.get('refire', 0)):
+        for uid in list(subjects):
+            _, nu = w.refire(uid)
+            subjects[subjects.index(uid)] = nu
+        try:
+            ok = w.settle(max_ticks=400)
+        except BaseException as ex:
+            import traceback
+            return [('LOOP_RAISED', {'error': repr(ex), 'tb': traceback.format_exc(limit=6)})], {'marks': set(), 'counts': {}}, w
+        if not ok:
+            return None, {'inconclusive': 'does not settle'}, w
     # canary: later events still run
     _, canary = w.fire({'name': 'canary'})
     try:
@@ -115,7 +130,11 @@ def evaluate(case, w, problems, canary, norm):
         raises = [e[3] for _, e in prods if e[0] == 'PX']
         exp_items = [e[3] if e[0] == 'P' else ['ERR', e[3]] for _, e in prods]
         expected = None if not exp_items else (exp_items[0] if len(exp_items) == 1 else exp_items)
-        v = w.objs[uid].value   # (for call() the Value exists only once the call generator has started)
+        v = getattr(w, 'final_value', {}).get(uid) or w.objs[uid].value   # (for call() the Value exists only once the call generator has started)
+        if info.get('refire_of') is not None:
+            marks.add('same_event_object_fired_again')
+            if raises or any(e[0] == 'PX' for _, e in per.get(info['refire_of'], [])):
+                marks.add('event_object_fired_again_after_a_handler_raised')
         observed = norm(v.value)
         counts['VALUE'] += 1
         if observed != expected:
@@ -203,6 +222,10 @@ def corpus():
                    ['R'], ['N'], ['X'], ['G0'], ['GX2'], ['R', 'R', 'R'], ['G1n', 'G1n']):
         for fl in ({}, {'success': True}, {'failure': True}, ALLF, {'success': True, 'notify': True}):
             cs.append({'handlers': mk_handlers('e', shapes), 'fires': [{'name': 'e', 'flags': fl}]})
+    # the same event object fired two more times after it has been handled (generator handlers that raise, mixed with others)
+    for shapes in (['GX0'], ['GX1'], ['GX2', 'R'], ['X', 'G2vv'], ['GXB1', 'G1v'], ['G2vn', 'R'], ['R'], ['GCn', 'GX1'], ['X']):
+        cs.append({'handlers': mk_handlers('e', shapes), 'fires': [{'name': 'e', 'flags': ALLF}], 'refire': 2})
+        cs.append({'handlers': mk_handlers('e', shapes), 'fires': [{'name': 'e', 'flags': {'success': True}}, {'name': 'e', 'flags': ALLF}], 'refire': 1})
     # success_channels override
     cs.append({'handlers': mk_handlers('e', ['R', 'G1v']), 'fires': [{'name': 'e', 'flags': ALLF, 'success_channels': ['other']}]})
     cs.append({'handlers': mk_handlers('e', ['X', 'G1v']), 'fires': [{'name': 'e', 'flags': ALLF, 'success_channels': ['other']}]})
@@ -218,6 +241,8 @@ def exhaustive(k):
     names = sorted(SHAPES)
     for shapes in itertools.product(names, repeat=k):
         yield {'handlers': mk_handlers('e', list(shapes)), 'fires': [{'name': 'e', 'flags': ALLF}]}
+        if k <= 2:
+            yield {'handlers': mk_handlers('e', list(shapes)), 'fires': [{'name': 'e', 'flags': ALLF}], 'refire': 1}
 
 
 def gen_case(rng):
@@ -242,7 +267,10 @@ def gen_case(rng):
         if rng.random() < 0.2:
             spec['success_channels'] = ['other']
         fires.append(spec)
-    return {'handlers': handlers, 'fires': fires}
+    case = {'handlers': handlers, 'fires': fires}
+    if rng.random() < 0.3:
+        case['refire'] = rng.choice([1, 1, 2])
+    return case
 
 
 def plan(tier, seed):
